@@ -7,7 +7,10 @@
                    (flows/inspect/results.go, flows/definition/node.go EnumerateResults) sees a declaration
      ar_save_names / ar_decl_names   the name expressions (receiver stripped: "ResultName", "Name", "resultName")
      ar_save_cats / ar_decl_cats     the category expressions, resolved to literals where they are literal
-     ar_save_guards                  the conjunction of if-conditions around each saving call ("true" = unguarded)
+     ar_save_guards / ar_decl_guards the conjuncts of the if-conditions around each saving call / declaration
+                                     ([] = unguarded; "NAME_NONEMPTY" = `<receiver>.<name member> != ""`)
+     ar_sites_syntactic / _typed     completeness guard: the uses of door-containing functions and the doors that the
+                                     syntactic extraction visited vs. those statically reachable by go/types
    No proofs in this file. *)
 From Coq Require Import List String Bool.
 Import ListNotations.
@@ -29,7 +32,11 @@ Record action_row := {
   ar_saves : bool;  ar_declares : bool;
   ar_save_names : list string;  ar_decl_names : list string;
   ar_save_cats : list cat_expr;  ar_decl_cats : list cat_expr;
-  ar_save_guards : list string
+  ar_save_guards : list (list string);   (* per saving call: the conjuncts of the if-conditions around it *)
+  ar_decl_guards : list (list string);   (* per declaration (NewResultInfo in Results()/EnumerateResults): same *)
+  ar_name_required : bool;               (* the name member is validate:"required" *)
+  ar_sites_syntactic : list string;      (* sink uses / doors the syntactic extraction visited *)
+  ar_sites_typed : list string           (* ... and what go/types says is statically reachable from Execute/Route *)
 }.
 
 Definition cat_expr_eqb (a b : cat_expr) : bool :=
@@ -68,10 +75,32 @@ Fixpoint lit_cats (l : list cat_expr) : list string :=
 Definition all_lit (l : list cat_expr) : bool :=
   forallb (fun c => match c with CLit _ => true | _ => false end) l.
 
-(* the finite obligation on one row: what it can save, it declares — same name expression, and every
-   category it can save with is among the declared ones (compared as expressions, see cat_covered) *)
+(* the finite obligation on one row: what it can save, it declares — same name expression, every category it
+   can save with is among the declared ones (compared as expressions, see cat_covered), no category can be the
+   empty literal (an index into a map that does not cover its key type), and the declaration is made whenever
+   the save happens (guards) *)
+Fixpoint strs_eqb (a b : list string) : bool :=
+  match a, b with
+  | [], [] => true
+  | x :: a', y :: b' => String.eqb x y && strs_eqb a' b'
+  | _, _ => false
+  end.
+
+(* a declaration under guard [gd] is made whenever a save under guard [gs] happens: every conjunct of gd is a
+   conjunct of gs, or is the name-non-empty test of a name the reader requires to be non-empty *)
+Definition guard_implied (required : bool) (gd gs : list string) : bool :=
+  forallb (fun c => str_in c gs || (required && String.eqb c "NAME_NONEMPTY")) gd.
+
 Definition row_declares_what_it_saves (r : action_row) : bool :=
   implb (ar_saves r)
         (ar_declares r
          && forallb (fun n => str_in n (ar_decl_names r)) (ar_save_names r)
-         && forallb (fun c => cat_covered c (ar_decl_cats r)) (ar_save_cats r)).
+         && forallb (fun c => cat_covered c (ar_decl_cats r)) (ar_save_cats r)
+         && negb (cat_in (CLit "") (ar_save_cats r))
+         && forallb (fun gs => existsb (fun gd => guard_implied (ar_name_required r) gd gs) (ar_decl_guards r))
+                    (ar_save_guards r)).
+
+(* the syntactic extraction saw every statically reachable use of a door-containing function and every door *)
+Definition row_complete (r : action_row) : bool :=
+  strs_eqb (ar_sites_syntactic r) (ar_sites_typed r)
+  && Bool.eqb (ar_saves r) (negb (match ar_sites_typed r with [] => true | _ => false end)).
